@@ -67,6 +67,10 @@ CHECKS['C14'] = dict(engine='progenum', category='exploration', section='3/C14',
    technique='bounded-exhaustive enumeration of statement sequences compiled by both compilers (typing agreement) and exhaustive product of has-expressions whose emitted $match document is interpreted under standard MongoDB semantics and compared with the core evaluator',
    text='Typing: every statement sequence of length <=4 (5 thorough) over 6 starts and 59 step instances, each also with a trailing aggregate, is compiled by mongo.NewCompiler (no database needed) and core.NewCompiler: acceptance, result type and mark types must agree. Filters: for 12 operators x every argument shape of the C08 grid and for every and/or/not expression of nesting <=2 (3) over atoms on which both sides agree, the document produced by the real convertHasExpression is evaluated by a 200-line interpreter of $and/$or/$not/$eq/$ne/$gt/$gte/$lt/$lte/$in on 10 scalar documents and must select exactly what logic.MatchesHasExpression keeps.',
    note='mongoeval is the trusted statement of standard MongoDB semantics (type brackets, null = missing for equality, $ne/$not match missing fields). convertHasExpression is reached through a verif-tagged overlay file; no MongoDB server is involved.')
+CHECKS['C15'] = dict(engine='progenum', category='exploration', section='3/C15',
+   technique='bounded-exhaustive differential enumeration: table sets x mappings served by the real gripper stack over an in-memory gRPC connection, every well-typed program up to a length bound compared with the reference interpreter on the graph materialised by the property\'s definition',
+   text='10 link-table contents (normal, missing/empty/dangling endpoints on either side, repeated links; 36 more pairs when thorough) x 6 mappings (distinct labels, shared label, one id prefix a prefix of the other, reversed link direction, two edge types over one table, same label in both directions) are exposed through SimpleTableServicer + bufconn + gripper.NewTabularGraph; every well-typed program of length <=3 (4) over 5 starts (V(), V(ids), E(), E(id)) and 25 steps with emphasis on leading and repeated hasLabel must return the rows that refsem computes on one-vertex-per-row / one-edge-per-link-row; every write call must be refused.',
+   note='refsem is the interpreter validated against kvgraph by C01. A traversal without an answer in 10 s on these tiny tables is reported as such.')
 NA_REASON = 'check not built yet in this session (planned in DESIGN.md section 3); nothing is claimed for it'
 
 m = {
